@@ -83,6 +83,8 @@ SPECIAL = {
     'badrepr': BadRepr,
     'unpicklable': Unpicklable,
     'generator': _gen,
+    # hash() of a writable memoryview raises ValueError (not TypeError); it cannot be pickled either
+    'memview': lambda: memoryview(bytearray(b'ab')),
     'lambda': lambda: (lambda x: x),
 }
 
@@ -135,6 +137,8 @@ def enc(v):
         return {'$o': 'mainthing'} if _has_mainthing() else {'$r': repr(v)}
     if isinstance(v, KeyErrObj):
         return {'$o': 'keyerr'}
+    if isinstance(v, memoryview):
+        return {'$o': 'memview'}
     if isinstance(v, BadRepr):
         return {'$o': 'badrepr'}
     if isinstance(v, Unpicklable):
